@@ -34,7 +34,7 @@ class C13(MetricsCheck):
         else:
             args = self.unit_args(spec, meta, inputs[:1])
             fn = self.unit_fn
-        return [{"uid": "%d/%d" % (k, h), "hseed": h, "fn": fn, "args": args, "timeout": 60} for h in hseeds]
+        return [{"uid": "%d/%d" % (k, h), "hseed": h, "fn": fn, "args": args, "timeout": self.unit_timeout} for h in hseeds]
 
     def nontrivial(self, spec, meta):
         return False
